@@ -281,9 +281,13 @@ def fam_chol(cx, rng, n, cls):
     labels.append('update')
   # rank deficiency: A = B B' with rank r < n, mindiag well above rounding: the deficient pivots are replaced
   if n >= 2:
+    # leading block well conditioned (cond 10), the rest linearly dependent on it: the first rk pivots are O(1) and the
+    # Schur complement of the remaining block is exactly zero up to rounding ~1e-14 (far below mindiag)
     rk = int(rng.randint(1, n))
-    B = rng.normal(size=(n, rk))
-    P = np.ascontiguousarray(B @ B.T)
+    S_ = spd(rng, rk, 10.0)
+    S_ /= np.max(np.abs(S_))
+    C_ = rng.normal(size=(rk, n - rk))
+    P = np.ascontiguousarray(np.block([[S_, S_ @ C_], [C_.T @ S_, C_.T @ S_ @ C_]]))
     md = 1e-8
     r = L.mju_cholFactor(P, n, md)
     if r != rk:
